@@ -3,7 +3,7 @@ import os, shutil, subprocess, concurrent.futures as cf
 import vcommon as V
 
 
-def run_sharded(drv, jobs, sc, tag, nshards=None, env=None, timeout=1200):
+def run_sharded(drv, jobs, sc, tag, nshards=None, env=None, timeout=1200, cpu_limit=300):
     """jobs: list of job lines (one execution each).  Returns list of (jobfile, tracefile, proc)."""
     nshards = nshards or V.NCPU
     nshards = max(1, min(nshards, len(jobs)))
@@ -18,7 +18,12 @@ def run_sharded(drv, jobs, sc, tag, nshards=None, env=None, timeout=1200):
         jf, tr, n = it
         with open(tr, "w") as out:
             try:
-                p = subprocess.run([drv, jf], stdout=out, stderr=subprocess.PIPE, env=env or V.run_env(), timeout=timeout)
+                # a CPU limit far above the normal cost (a shard needs seconds) turns a call that never
+                # returns into a prompt SIGXCPU instead of a long wall-clock timeout
+                def lim():
+                    import resource
+                    resource.setrlimit(resource.RLIMIT_CPU, (cpu_limit, cpu_limit + 5))
+                p = subprocess.run([drv, jf], stdout=out, stderr=subprocess.PIPE, env=env or V.run_env(), timeout=timeout, preexec_fn=lim)
             except subprocess.TimeoutExpired as e:
                 class P: pass
                 p = P(); p.returncode = -999; p.stderr = b"TIMEOUT after %ds" % timeout
